@@ -1,7 +1,7 @@
 #!/bin/bash
-# seedconfirm7.sh <prop>... — confirm the mutants SEEDS/1, SEEDS/2 of /tmp/seedwt7-<prop> under the next free ids
+# ROUND=<n> seedconfirm7.sh <prop>... — confirm the mutants SEEDS/1, SEEDS/2 of /tmp/seedwt7-<prop> under the next free ids
 for P in "$@"; do
-  WT=/tmp/seedwt7-$P
+  WT=/tmp/seedwt${ROUND:-7}-$P
   for K in 1 2; do
     [ -f $WT/SEEDS/$K/patch.diff ] || { echo "$P/$K: no patch"; continue; }
     max=$(ls /verif/seeded | grep "^$P-" | sed "s/^$P-//" | sort -n | tail -1)
